@@ -278,6 +278,15 @@ def typed_header():
     return e
 
 
+def must_understand_header():
+    """A caller-made header that uses the envelope's own prefix for a SOAP attribute, as callers do."""
+    from suds.sax.element import Element
+    e = Element("Session", ns=("ses", "urn:session"))
+    e.setText("abc")
+    e.set("SOAP-ENV:mustUnderstand", "1")
+    return e
+
+
 def raw_element(k):
     from suds.sax.element import Element
     e = Element("Raw%d" % k, ns=("rw", "urn:raw:%d" % k))
@@ -337,7 +346,7 @@ def option_checks(ctx):
     from suds.sax.element import Element
     for form in ("qualified", "unqualified"):
         w = make_wsdl(form)
-        headers_variants = [(), ("hv",), (raw_element(9),), (typed_header(),)]
+        headers_variants = [(), ("hv",), (raw_element(9),), (typed_header(),), (must_understand_header(),)]
         base = wsdlkit.client(w, nosend=True)
         for ai, kw in enumerate(arg_sets(base, rng)):
             for hv in headers_variants:
